@@ -154,6 +154,80 @@ def reverse_module_functions(root):
 
 TRANSFORMS.update({"reverse_methods": reverse_methods, "reverse_module_functions": reverse_module_functions})
 
+
+_TERM = (ast.Return, ast.Raise, ast.Continue, ast.Break)
+
+
+def _terminates(body):
+    if not body:
+        return False
+    last = body[-1]
+    if isinstance(last, _TERM):
+        return True
+    if isinstance(last, ast.If):
+        return bool(last.orelse) and _terminates(last.body) and _terminates(last.orelse)
+    return False
+
+
+def nest_else(root):
+    """`if c: return x` followed by more statements becomes `if c: return x  else: <the statements>` (inside functions)"""
+    n = 0
+
+    def rewrite(block):
+        nonlocal n
+        i = 0
+        while i < len(block):
+            st = block[i]
+            for attr in ("body", "orelse", "finalbody"):
+                sub = getattr(st, attr, None)
+                if isinstance(sub, list) and sub and isinstance(sub[0], ast.stmt):
+                    rewrite(sub)
+            for h in getattr(st, "handlers", []) or []:
+                rewrite(h.body)
+            if isinstance(st, ast.If) and not st.orelse and _terminates(st.body) and i + 1 < len(block):
+                rest = block[i + 1 :]
+                # declarations must stay at function level
+                if not any(isinstance(x, (ast.Global, ast.Nonlocal, ast.FunctionDef, ast.ClassDef, ast.Import, ast.ImportFrom)) for x in rest):
+                    st.orelse = rest
+                    del block[i + 1 :]
+                    n += 1
+                    rewrite(st.orelse)
+                    break
+            i += 1
+
+    for f in glob.glob(os.path.join(root, "dask_expr", "**", "*.py"), recursive=True):
+        if os.sep + "tests" + os.sep in f:
+            continue
+        tree = ast.parse(open(f).read())
+        for fn in ast.walk(tree):
+            if isinstance(fn, (ast.FunctionDef, ast.AsyncFunctionDef)):
+                rewrite(fn.body)
+        with open(f, "w") as fh:
+            fh.write(ast.unparse(tree) + "\n")
+    return n
+
+
+def swap_arms(root):
+    """`if c: A else: B` becomes `if not c: B else: A` (plain two-armed ifs, not elif chains)"""
+    n = 0
+    for f in glob.glob(os.path.join(root, "dask_expr", "**", "*.py"), recursive=True):
+        if os.sep + "tests" + os.sep in f:
+            continue
+        tree = ast.parse(open(f).read())
+        for st in ast.walk(tree):
+            if isinstance(st, ast.If) and st.orelse and not (len(st.orelse) == 1 and isinstance(st.orelse[0], ast.If)):
+                # do not touch an `if` that is itself the elif of a chain
+                st.test = st.test.operand if isinstance(st.test, ast.UnaryOp) and isinstance(st.test.op, ast.Not) else ast.UnaryOp(op=ast.Not(), operand=st.test)
+                st.body, st.orelse = st.orelse, st.body
+                n += 1
+        ast.fix_missing_locations(tree)
+        with open(f, "w") as fh:
+            fh.write(ast.unparse(tree) + "\n")
+    return n
+
+
+TRANSFORMS.update({"nest_else": nest_else, "swap_arms": swap_arms})
+
 if __name__ == "__main__":
     import sys
 
